@@ -103,7 +103,10 @@ func (x *Exec) havocCall(st *State, hint string, args []*Val, res *types.Tuple) 
 		}
 	}
 	if refs {
-		x.havocAll(st, "opaque call "+hint)
+		for _, a := range args {
+			x.markEscaped(st, a)
+		}
+		x.havocAllBut(st, "opaque call "+hint, true)
 	}
 	return x.freshResult(st, hint, res)
 }
@@ -283,6 +286,9 @@ func (x *Exec) applyContract(st *State, fr *Frame, c *Contract, sig *types.Signa
 	for _, cl := range c.of("requires", -1) {
 		t := sctx.evalBool(cl)
 		x.check(st, t, "precondition", cname+"."+cl.ID, x.site(pos), "callee "+cname+" requires "+cl.Text)
+	}
+	for _, a := range args {
+		x.markEscaped(st, a)
 	}
 	old := st.snap()
 	// frame: havoc what the callee may modify
